@@ -1,16 +1,21 @@
 #!/bin/bash
 # Runs the quick tier of the owning property against every seeded mutation (scratch copy of /repo), writes seeded/RESULTS.md
-# usage: tools/seed_sweep.sh [parallelism]
+# usage: [ONLY="C02 C05"] tools/seed_sweep.sh [parallelism]
+#   ONLY restricts the re-run to the listed properties; the rows of the others are kept from the existing RESULTS.md
 cd /verif
 P=${1:-4}
 tmp=$(mktemp -d /tmp/pvm_sweep_XXXX)
-ls -d seeded/C*-mut*/ | xargs -P $P -I{} sh -c 'id=$(basename {}); p=${id%%-*}; /venv/bin/python tools/seedcheck.py {}patch.diff $p > '$tmp'/$id.txt 2>&1'
 out=seeded/RESULTS.md
+cp $out $tmp/old.md 2>/dev/null
+sel() { [ -z "$ONLY" ] || echo " $ONLY " | grep -q " $1 "; }
+for d in seeded/C*-mut*/; do id=$(basename $d); p=${id%%-*}; sel $p && echo $d; done | xargs -P $P -I{} sh -c 'id=$(basename {}); p=${id%%-*}; /venv/bin/python tools/seedcheck.py {}patch.diff $p > '$tmp'/$id.txt 2>&1'
 echo "| mutation | property | quick tier | mechanisms reported |" > $out
 echo "|---|---|---|---|" >> $out
 for d in seeded/C*-mut*/; do
   id=$(basename $d); p=${id%%-*}
   if grep -q neutralised_by $d/meta.json; then echo "| $id | $p | (neutralised by a later repair, see meta.json) |  |" >> $out; continue; fi
+  if grep -q not_judged_by_design $d/meta.json; then echo "| $id | $p | (outside what the check judges, see meta.json) |  |" >> $out; continue; fi
+  if ! sel $p; then grep "^| $id |" $tmp/old.md >> $out || echo "| $id | $p | no result |  |" >> $out; continue; fi
   r=$(grep "^$p:" $tmp/$id.txt)
   [ -z "$r" ] && r="$p: $(grep -m1 'PATCH FAILED' $tmp/$id.txt || echo 'no result')"
   echo "| $id | $p | $(echo $r | grep -o 'CAUGHT\|MISSED\|PATCH FAILED') | $(echo $r | sed 's/.*\[\(.*\)\]/\1/' | cut -c1-160) |" >> $out
